@@ -13,7 +13,7 @@ SPEC = tlc.SPEC_DIR
 
 
 def run_mc(defs, workdir, own, max_pause=0, max_cancel=0, max_steps=14, known=(), emit=True,
-           workers=16, timeout=1200, simulate=None, seed=None, tag="mc"):
+           workers=16, timeout=1200, simulate=None, seed=None, tag="mc", bound_check=False):
     """-> dict(states, distinct, wall, rc, leaves=[{def, sched, digest}], violated, out)"""
     dpath = os.path.join(workdir, tag + "_defs.json")
     with open(dpath, "w") as f:
@@ -24,7 +24,7 @@ def run_mc(defs, workdir, own, max_pause=0, max_cancel=0, max_steps=14, known=()
         f.write("SPECIFICATION Spec\nCONSTANTS\n  MaxPause = %d\n  MaxCancel = %d\n  MaxSteps = %d\n"
                 "  Own = %s\n  KnownSigs = %s\nINVARIANT NoViolation\n%sVIEW View\nCHECK_DEADLOCK FALSE\n"
                 % (max_pause, max_cancel, max_steps, q(own), q(known),
-                   "INVARIANT EmitLeaves\n" if emit else ""))
+                   ("INVARIANT EmitLeaves\n" if emit else "") + ("INVARIANT BoundNotHit\n" if bound_check else "")))
     try:
         res = tlc.run("MC", cfg=os.path.basename(cfg), env={"DEFS_FILE": dpath}, workers=workers,
                       timeout=timeout, simulate=simulate, seed=seed, workdir=workdir)
@@ -38,6 +38,7 @@ def run_mc(defs, workdir, own, max_pause=0, max_cancel=0, max_steps=14, known=()
             pass
     res["leaves"] = leaves
     res["violated"] = "Invariant NoViolation is violated" in res["out"]
+    res["bound_hit"] = "Invariant BoundNotHit is violated" in res["out"]
     return res
 
 
